@@ -50,6 +50,25 @@ def cell_atoms(model, cls, fn, g, x, at):
 # ---------------------------------------------------------------------------
 
 
+def foreign_filters(f, allowed_suffixes=(".get_children() is None", ".visited")):
+    """Filters of a fold (enclosing ifs inside the loop and conjuncts of the update test) other than the leaf test and the
+    evaluated flag of the candidate: any other condition removes cells from the maximum the rule speaks about."""
+    out = []
+    for src_, pol in f.filters:
+        parts = [src_]
+        try:
+            e = ast.parse(src_, mode="eval").body
+            if isinstance(e, ast.BoolOp) and isinstance(e.op, ast.And) and pol:
+                parts = [norm_src(v) for v in e.values]
+        except SyntaxError:
+            pass
+        for p_ in parts:
+            q = p_[4:] if p_.startswith("not ") else p_
+            if not any(q == f.cand + suf or q.endswith(suf) and q[:-len(suf)] in (f.cand, f.elem or f.cand) for suf in allowed_suffixes):
+                out.append(p_ if pol else "not (%s)" % p_)
+    return out
+
+
 def check_soo(ctx):
     model = ctx.model
     c = model.cls("SOO")
@@ -81,9 +100,10 @@ def check_soo(ctx):
     f = folds[0]
     key_attr = c07.getter_attr(model, "SOO_node", f.key) if isinstance(f.key, ast.Call) else None
     fa = atoms_at(g, g.node_of(f.if_node))
+    ff = foreign_filters(f)
     okf = (f.direction == "max" and f.seed in SENT and key_attr == "reward" and not f.also and f.set_src == "node_list[h]"
-           and leaf_atom(f.cand) in fa and ("truthy", "%s.visited" % f.cand, "") in fa)
-    ctx.ob("R08-EXPAND", okf, c.file, q, "expanded leaf = evaluated leaf of depth h with the highest reward", f.describe() + "; facts %s" % fa, f.if_node.lineno)
+           and leaf_atom(f.cand) in fa and ("truthy", "%s.visited" % f.cand, "") in fa and not ff)
+    ctx.ob("R08-EXPAND", okf, c.file, q, "expanded leaf = evaluated leaf of depth h with the highest reward", f.describe() + "; facts %s" % fa + ("; cells are also excluded by %s" % ff if ff else ""), f.if_node.lineno)
     # the fold is re-seeded for every depth (inside the depth loop)
     wl = [w for w in ast.walk(pull) if isinstance(w, ast.While)]
     inner = [w for w in wl if norm_src(w.test) != "True"]
@@ -175,9 +195,10 @@ def check_doo(ctx):
     f = folds[0]
     key_attr = c07.getter_attr(model, "DOO_node", f.key) if isinstance(f.key, ast.Call) else None
     fa = atoms_at(g, g.node_of(f.if_node))
+    ff = foreign_filters(f)
     okf = (f.direction == "max" and f.seed in SENT and key_attr == "b_value" and not f.also and f.set_src == "node_list[h]"
-           and leaf_atom(f.cand) in fa and ("truthy", "%s.visited" % f.cand, "") in fa)
-    ctx.ob("R08-EXPAND", okf, c.file, q, "expanded leaf = evaluated leaf with the highest b-value", f.describe() + "; facts %s" % fa, f.if_node.lineno)
+           and leaf_atom(f.cand) in fa and ("truthy", "%s.visited" % f.cand, "") in fa and not ff)
+    ctx.ob("R08-EXPAND", okf, c.file, q, "expanded leaf = evaluated leaf with the highest b-value", f.describe() + "; facts %s" % fa + ("; cells are also excluded by %s" % ff if ff else ""), f.if_node.lineno)
     # the b-value is recomputed, with this depth's delta, right before it is compared
     # (a call <cand>.compute_b_value(delta) inside the cell loop that dominates the comparison)
     calls_b = [x for x in ast.walk(f.inner) if isinstance(x, ast.Call) and method_name(x) == "compute_b_value" and
